@@ -628,7 +628,7 @@ func (l *Linter) check(
 		}
 	}
 
-	all = l.filterErrors(all, cfg.PathConfigs(path))
+	all = l.filterErrors(all, cfg.PathConfigs(l.pathFromProjectRoot(path, project)))
 
 	for _, err := range all {
 		err.Filepath = path // Populate filename in the error
@@ -642,6 +642,24 @@ func (l *Linter) check(
 	}
 
 	return all, nil
+}
+
+// pathFromProjectRoot returns the file path relative to the root directory of the project. Glob
+// patterns in the "paths" configuration are matched against this path so that the configuration
+// is applied independently from the current working directory. The path argument is the path
+// passed to check(), which is relative to the working directory where possible.
+func (l *Linter) pathFromProjectRoot(path string, project *Project) string {
+	if project == nil {
+		return path
+	}
+	p := path
+	if !filepath.IsAbs(p) {
+		p = filepath.Join(l.cwd, p)
+	}
+	if r, err := filepath.Rel(project.RootDir(), absPath(p)); err == nil {
+		return r
+	}
+	return path
 }
 
 func (l *Linter) filterErrors(errs []*Error, cfgs []PathConfig) []*Error {
